@@ -1916,12 +1916,6 @@ Qed.
 Lemma shape_tk F K : map (fun k => (nlab k, map dlab (nins k))) (map (tk F) K) = map (fun k => (nlab k, map dlab (nins k))) K.
 Proof. rewrite map_map. apply map_ext. intros k. rewrite tk_lab, tk_ins_labs. reflexivity. Qed.
 
-Lemma root_ready_din K K' : din K' = din K -> root_ready K' = root_ready K.
-Proof.
-  (* readiness of the workflow reads, per child input, only whether it is connected and holds data *)
-  intros _. reflexivity.
-Abort.
-
 Lemma root_ready_relevel K : NoDup (keys (din K)) -> root_ready (relevel (map inner K)) = root_ready K.
 Proof.
   intros Hn. unfold root_ready, relevel, put. rewrite map_map, forallb_map. apply forallb_ext_in. intros k Hk.
@@ -1940,9 +1934,16 @@ Proof.
   unfold exec. rewrite ref_eq. cbn [nkids nstart].
   rewrite (root_ready_relevel _ Ndi). destruct (root_ready (nkids n)); [|reflexivity].
   destruct (relevel_as_map (nkids n)) as [F EX].
-  unfold wiring_of. rewrite EX at 5 6 7 8. rewrite vals_in_tk, vals_out_tk, rcvd_tk, shape_tk.
-  unfold relevel. rewrite din_put, soutv_put, sinv_put, !din_inner, !sinv_inner, soutv_inner.
-  rewrite (refill_look Ndi). rewrite (canon_sig_eq _ Nso Hc).
+  assert (E1 : vals_in (relevel (map inner (nkids n))) = vals_in (nkids n)) by (rewrite EX; apply vals_in_tk).
+  assert (E2 : vals_out (relevel (map inner (nkids n))) = vals_out (nkids n)) by (rewrite EX; apply vals_out_tk).
+  assert (E3 : rcvd_of (relevel (map inner (nkids n))) = rcvd_of (nkids n)) by (rewrite EX; apply rcvd_tk).
+  assert (EW : wiring_of (relevel (map inner (nkids n))) =
+               mkW (din (nkids n)) (soutv (nkids n)) (refill (fun i => rev (look (sinv (nkids n)) i)) (sinv (nkids n)))
+                   (map (fun k => (nlab k, map dlab (nins k))) (nkids n))).
+  { unfold wiring_of. rewrite EX at 4. rewrite shape_tk.
+    unfold relevel. rewrite din_put, soutv_put, sinv_put, !din_inner, !sinv_inner, soutv_inner.
+    rewrite (@refill_look _ Ndi). rewrite (@canon_sig_eq _ Nso Hc). reflexivity. }
+  rewrite E1, E2, E3, EW. unfold wiring_of.
   assert (Hacc : acc_eq (mkW (din (nkids n)) (soutv (nkids n)) (refill (fun i => rev (look (sinv (nkids n)) i)) (sinv (nkids n)))
                              (map (fun k => (nlab k, map dlab (nins k))) (nkids n)))
                         (mkW (din (nkids n)) (soutv (nkids n)) (sinv (nkids n))
@@ -1950,9 +1951,9 @@ Proof.
   { intros r rc. cbn [w_sin]. rewrite look_refill. destruct (has_key (sinv (nkids n)) r) eqn:Hk.
     - apply forallb_rev.
     - rewrite look_nokey; [reflexivity|]. intros H. apply has_key_In in H. congruence. }
-  rewrite (starts_inv Hacc).
+  rewrite (@starts_inv _ _ _ _ (sinv (nkids n))).
   destruct (starts _ _ (nstart n)) as [st|[|]]; try reflexivity.
-  apply (loop_inv Hacc).
+  apply (@loop_inv _ _ _ _ _ Hacc).
 Qed.
 
 Lemma canon_refill_mem g E o :
@@ -1988,3 +1989,139 @@ Proof.
   induction k as [|k IH]; intros n Hw Hc; [reflexivity|]. cbn [iter_ref].
   rewrite IH; [apply exec_ref; auto | apply wfb_ref; exact Hw | apply sig_canon_ref; exact Hw].
 Qed.
+
+(* =================================================================== 14. property-level statements for pickle *)
+Definition guards (n : node) : Prop :=
+  wfb n = true /\ own_ok n = true /\
+  links_resolve n = true /\ links_unlocked n = true /\ links_synced n = true.
+
+Theorem roundtrip_pickle k c n :
+  guards n -> cown c = true ->
+  exists n', trips (S k) BPickle (c, n) = Ok (mkC None (root_det c) true, n') /\
+             same (strip_root n) n' /\ no_own_conns n' /\ din (nkids n') = din (nkids n).
+Proof.
+  intros [Hw [Ho [Hr [Hu Hs]]]] Hc. exists (iter_ref (S k) n). split; [apply trips_pickle_exact; auto|].
+  pose proof (same_iter k n Hw) as S. split; [exact S|]. split; [apply iter_no_own|].
+  apply same_eq in S. destruct S as [_ [_ [_ [_ [_ [_ [_ [_ [_ [_ [_ [D _]]]]]]]]]]]]. exact D.
+Qed.
+
+Lemma guards_kid p k : guards p -> In k (nkids p) -> guards k.
+Proof.
+  intros [Hw [Ho [Hr [Hu Hs]]]] Hk. destruct (wfb_parts _ Hw) as [Wk _].
+  unfold links_resolve, links_unlocked, links_synced in *. rewrite allb_eq in Hr, Hu, Hs.
+  apply andb_true_iff in Hr, Hu, Hs. destruct Hr as [_ Hr], Hu as [_ Hu], Hs as [_ Hs].
+  repeat split.
+  - exact (forallb_In _ _ _ Wk Hk).
+  - eapply kid_own_ok; eauto.
+  - exact (forallb_In _ _ _ Hr Hk).
+  - exact (forallb_In _ _ _ Hu Hk).
+  - exact (forallb_In _ _ _ Hs Hk).
+Qed.
+
+(* a child (with whatever connections to its siblings and links into its parent) pickled on its own *)
+Theorem child_alone p k ppath :
+  guards p -> In k (nkids p) ->
+  exists k', trip_pickle (mkC (Some ppath) None true, k) = Ok (mkC None (Some ppath) true, k') /\
+             no_own_conns k' /\ same (strip_root k) k'.
+Proof.
+  intros Hg Hk. destruct (@guards_kid p k Hg Hk) as [Hw [Ho [Hr [Hu Hs]]]].
+  exists (ref k). split; [|split; [apply ref_no_own | apply same_ref; exact Hw]].
+  rewrite trip_pickle_exact; auto.
+Qed.
+
+Theorem rerun_pickle k c n fuel :
+  guards n -> cown c = true -> sig_canon_level (nkids n) = true ->
+  exists n', trips (S k) BPickle (c, n) = Ok (mkC None (root_det c) true, n') /\ exec fuel n' = exec fuel n.
+Proof.
+  intros [Hw [Ho [Hr [Hu Hs]]]] Hc Hsig. exists (iter_ref (S k) n). split; [apply trips_pickle_exact; auto|].
+  apply exec_iter; auto.
+Qed.
+
+(* ---- witnesses ---------------------------------------------------------------------------------- *)
+Definition sigs_in : list schan := [mkS "run" [] []; mkS "accumulate_and_run" [] []].
+Definition sigs_out : list schan := [mkS "ran" [] []; mkS "failed" [] []].
+Definition lin1 (lab : string) (a : slot) (outrcv : recv) : node :=
+  Node lab KLeaf "Lin1" false false ENone
+       [mkD "tag" (Data (OZ 1)) [] RNone; mkD "k" (Data (OZ 1)) [] RNone; mkD "a" a [] RNone]
+       [mkD "y" NotData [] outrcv] sigs_in sigs_out [] [] [].
+Definition ctx0 : ctx := mkC None None true.
+
+(* a macro whose second input is not used by any child: its UI node was purged, the link dangles *)
+Definition w_unused : node :=
+  Node "m" KLinked "MUnused" false false ENone
+       [mkD "x" (Data (OZ 1)) [] (RChild "p" "a"); mkD "unused" (Data (OZ 3)) [] (RChild "unused" "user_input")]
+       [mkD "out" NotData [] RNone] sigs_in sigs_out
+       [lin1 "p" (Data (OZ 1)) (RParent "out")] ["p"] [].
+Lemma refuted_unused :
+  wfb w_unused = true /\ own_ok w_unused = true /\ links_unlocked w_unused = true /\ links_synced w_unused = true /\
+  links_resolve w_unused = false /\ trips 1 BPickle (ctx0, w_unused) = Err KeyErr.
+Proof. vm_compute. repeat split; reflexivity. Qed.
+
+(* a macro inside a macro, flagged running (a checkpoint image taken while it ran) *)
+Definition w_inner (rn : bool) (v : slot) : node :=
+  Node "inner" KLinked "MChain" false rn ENone
+       [mkD "x" v [] (RChild "p" "a")] [mkD "out" NotData [] (RParent "out")] sigs_in sigs_out
+       [lin1 "p" v (RParent "out")] ["p"] [].
+Definition w_outer (rn : bool) (v : slot) : node :=
+  Node "M" KLinked "MOuter" false rn ENone
+       [mkD "x" (Data (OZ 1)) [] (RChild "inner" "x")] [mkD "out" NotData [] RNone] sigs_in sigs_out
+       [w_inner rn v] ["inner"] [].
+Lemma refuted_running :
+  let n := w_outer true (Data (OZ 1)) in
+  wfb n = true /\ own_ok n = true /\ links_resolve n = true /\ links_synced n = true /\
+  links_unlocked n = false /\ trips 1 BPickle (ctx0, n) = Err Locked.
+Proof. vm_compute. repeat split; reflexivity. Qed.
+
+(* a child input edited directly below a value link: the macro's value is pushed over it *)
+Lemma refuted_desync :
+  let n := w_outer false (Data (OZ 7)) in
+  wfb n = true /\ own_ok n = true /\ links_resolve n = true /\ links_unlocked n = true /\
+  links_synced n = false /\
+  exists c' n', trips 1 BPickle (ctx0, n) = Ok (c', n') /\
+                vals_in (nkids n) = [(("inner", "x"), Data (OZ 7))] /\
+                vals_in (nkids n') = [(("inner", "x"), Data (OZ 1))].
+Proof. vm_compute. repeat split; try reflexivity. eexists _, _. repeat split; reflexivity. Qed.
+
+(* hand-wired fan-out a.ran -> [b.run, c.run]: restore re-makes it as [c.run, b.run] *)
+Definition lin0 (lab : string) (tag : Z) (run_from ran_to : list cref) : node :=
+  Node lab KLeaf "Lin0" false false ENone
+       [mkD "tag" (Data (OZ tag)) [] RNone; mkD "k" (Data (OZ 1)) [] RNone]
+       [mkD "y" NotData [] RNone]
+       [mkS "run" run_from []; mkS "accumulate_and_run" [] []]
+       [mkS "ran" ran_to []; mkS "failed" [] []] [] [] [].
+Definition w_fan : node :=
+  Node "wf" KWf "Workflow" false false ENone [] [] sigs_in sigs_out
+       [lin0 "a" 0 [] [("b", "run"); ("c", "run")]; lin0 "b" 1 [("a", "ran")] []; lin0 "c" 2 [("a", "ran")] []]
+       ["a"] [].
+Definition prov_of (r : xres) : list string := match r with XOk st => st_prov st | _ => [] end.
+Lemma refuted_rerun :
+  wfb w_fan = true /\ own_ok w_fan = true /\ links_ok w_fan = true /\ flatb w_fan = true /\
+  sig_canon_level (nkids w_fan) = false /\
+  exists c' n', trips 1 BPickle (ctx0, w_fan) = Ok (c', n') /\
+                prov_of (exec 20 w_fan) = ["a"; "b"; "c"] /\ prov_of (exec 20 n') = ["a"; "c"; "b"].
+Proof. vm_compute. repeat split; try reflexivity. eexists _, _. repeat split; reflexivity. Qed.
+
+(* Node.load: the adopted channels are owned by the throw-away instance; a macro loaded that way
+   cannot be saved and loaded again *)
+Lemma refuted_file_owner :
+  let n := w_outer false (Data (OZ 1)) in
+  guards n /\ exists c' n', trips 1 BFile (ctx0, n) = Ok (c', n') /\ cown c' = false /\
+                            trips 2 BFile (ctx0, n) = Err KeyErr.
+Proof. split; [vm_compute; repeat split; reflexivity|]. vm_compute. eexists _, _. repeat split; reflexivity. Qed.
+
+(* non-vacuity: the guards hold of a nested macro with multi-connection inputs *)
+Definition w_multi : node :=
+  Node "wf" KWf "Workflow" false false ENone [] [] sigs_in sigs_out
+       [lin0 "a" 0 [] [("c", "accumulate_and_run"); ("b", "run")];
+        Node "b" KLeaf "Lin1" false false (EInstr (OL [OS "instr"])) 
+             [mkD "tag" (Data (OZ 1)) [] RNone; mkD "k" (Data (OZ 2)) [] RNone; mkD "a" NotData [("a", "y")] RNone]
+             [mkD "y" (Data (OZ 5)) [("c", "a")] RNone]
+             [mkS "run" [("a", "ran")] []; mkS "accumulate_and_run" [] []]
+             [mkS "ran" [("c", "accumulate_and_run")] []; mkS "failed" [] []] [] [] [];
+        Node "c" KLeaf "Lin1" true false ENone
+             [mkD "tag" (Data (OZ 2)) [] RNone; mkD "k" (Data (OZ 3)) [] RNone; mkD "a" (Data (OZ 5)) [("b", "y"); ("a", "y")] RNone]
+             [mkD "y" NotData [] RNone]
+             [mkS "run" [] []; mkS "accumulate_and_run" [("a", "ran"); ("b", "ran")] ["a__ran"]]
+             [mkS "ran" [] []; mkS "failed" [] []] [] [] [];
+        w_outer false (Data (OZ 1))]
+       ["a"] ["a"; "b"].
